@@ -41,15 +41,13 @@ def kind_of(x):
 
 
 def type_exact_eq(a, b):
-    """Equality that also demands the same JSON type at every leaf (-0.0 sign included)."""
+    """Equality that also demands the same JSON type (bool/int/float/str/null) at every leaf."""
     if type(a) is not type(b):
         return False
     if type(a) is dict:
         return a.keys() == b.keys() and all(type_exact_eq(a[k], b[k]) for k in a)
     if type(a) is list:
         return len(a) == len(b) and all(type_exact_eq(x, y) for x, y in zip(a, b))
-    if type(a) is float:
-        return a == b and (str(a) == str(b))
     return a == b
 
 
